@@ -36,6 +36,8 @@ type Engine struct {
 	TypeTags map[string]int // dynamic type tags by "pkg.Type"
 	tagList  []string
 	LemmaUse map[string]int
+	LocalAssumptions []string
+	assumeSeen map[string]bool
 	FunctionsRun []string
 	TrustedFuncs []string
 }
@@ -333,6 +335,7 @@ type Ctx struct {
 	loopOrd  map[ast.Node]int
 	feOrd    map[ast.Node]int
 	callOrd  map[string]int
+	callSiteOrd map[ast.Node]int
 	curPos   token.Pos
 	wfSeen   map[string]bool
 	depth    int
@@ -701,6 +704,7 @@ func (c *Ctx) load(heap map[string]Term, base string, path []Term, t types.Type,
 		return v
 	case TStruct:
 		st := t.Underlying().(*types.Struct)
+		ints, floats = c.structModes(t, ints, floats)
 		v := &Val{K: VStruct, Typ: t, F: map[string]*Val{}}
 		for i := 0; i < st.NumFields(); i++ {
 			f := st.Field(i)
@@ -740,6 +744,7 @@ func (c *Ctx) store(base string, path []Term, t types.Type, v *Val, ints, floats
 		return
 	case TStruct:
 		st := t.Underlying().(*types.Struct)
+		ints, floats = c.structModes(t, ints, floats)
 		for i := 0; i < st.NumFields(); i++ {
 			f := st.Field(i)
 			fv := v.F[f.Name()]
@@ -784,6 +789,16 @@ func (c *Ctx) coerce(x Term, s Sort) Term {
 	return x
 }
 
+// structModes: the fields of a named struct type are represented in the modes of the package declaring it.
+func (c *Ctx) structModes(t types.Type, ints, floats string) (string, string) {
+	if n, ok := t.(*types.Named); ok && n.Obj().Pkg() != nil {
+		if pi := c.E.ByPath[n.Obj().Pkg().Path()]; pi != nil && pi.Spec != nil {
+			return pi.Spec.Ints, pi.Spec.Floats
+		}
+	}
+	return ints, floats
+}
+
 func (c *Ctx) zeroTerm(s Sort) Term {
 	switch {
 	case s == SInt:
@@ -812,6 +827,7 @@ func (c *Ctx) zeroVal(t types.Type, ints, floats string) *Val {
 		return &Val{K: VSlice, Typ: t, Arr: z, Off: z, Len: z, Cap: z}
 	case TStruct:
 		st := t.Underlying().(*types.Struct)
+		ints, floats = c.structModes(t, ints, floats)
 		v := &Val{K: VStruct, Typ: t, F: map[string]*Val{}}
 		for i := 0; i < st.NumFields(); i++ {
 			f := st.Field(i)
@@ -839,6 +855,7 @@ func (c *Ctx) freshVal(prefix string, t types.Type, ints, floats string) *Val {
 		return v
 	case TStruct:
 		st := t.Underlying().(*types.Struct)
+		ints, floats = c.structModes(t, ints, floats)
 		v := &Val{K: VStruct, Typ: t, F: map[string]*Val{}}
 		for i := 0; i < st.NumFields(); i++ {
 			f := st.Field(i)
@@ -1094,13 +1111,13 @@ func (e *Engine) IsInterfaceMethod(pi *PkgInfo, key string) bool {
 
 // Assumptions lists the standing assumptions of the verification (DESIGN section 6).
 func (e *Engine) Assumptions(prop string) []string {
-	return []string{
+	return append(append([]string{}, e.LocalAssumptions...), []string{
 		"A-GEN: the VC generator's semantics of the Go subset (DESIGN 2.2), the SMT solvers",
 		"A-REAL: float64 arithmetic on weights/values is real arithmetic in packages verified in `real`/`ext` mode (ext adds NaN and the infinities, -0 identified with +0)",
 		"A-LIB: trusted models of append/copy/make, sort.Ints/Float64s, errors.New, math.*, math/bits, encoding/binary (internal/vc/lib.go)",
 		"A-DOM: receivers are non-nil; allocation never fails; re-slicing beyond len is outside the subset (checked as an obligation)",
 		"A-SEQ: no concurrent use of a sketch/store; Bins() goroutines are not modelled",
-	}
+	}...)
 }
 
 // Refinements generates the refinement checks of every implementation of an interface method under contract.
@@ -1159,4 +1176,15 @@ func (e *Engine) Refinements(pi *PkgInfo, key string, ict *Contract, only string
 func (e *Engine) invCovers(pi *PkgInfo, n *types.Named) bool {
 	_, ok := pi.Spec.Funs["Covers$"+n.Obj().Name()]
 	return ok
+}
+
+
+func (e *Engine) noteAssumption(s string) {
+	if e.assumeSeen == nil {
+		e.assumeSeen = map[string]bool{}
+	}
+	if !e.assumeSeen[s] {
+		e.assumeSeen[s] = true
+		e.LocalAssumptions = append(e.LocalAssumptions, s)
+	}
 }
